@@ -145,8 +145,13 @@ pub fn codes(k: usize, n: usize) -> BoxedStrategy<Vec<u64>> {
 
 /// threads x ops from a per-op strategy; the number of threads is biased towards many
 pub fn case_strategy(op: BoxedStrategy<Op>) -> BoxedStrategy<Case> {
+    case_strategy_n(op, 3)
+}
+
+/// up to `max_ops` operations per thread (long per-thread lists keep the threads overlapping well after the start)
+pub fn case_strategy_n(op: BoxedStrategy<Op>, max_ops: usize) -> BoxedStrategy<Case> {
     prop_oneof![1 => 2usize..=4, 2 => 5usize..=16, 1 => Just(16usize)]
-        .prop_flat_map(move |t| proptest::collection::vec(proptest::collection::vec(op.clone(), 1..=3), t))
+        .prop_flat_map(move |t| proptest::collection::vec(proptest::collection::vec(op.clone(), 1..=max_ops), t))
         .prop_map(|threads| Case { threads })
         .boxed()
 }
